@@ -1,6 +1,7 @@
 import HpoProofs.NumReal
 import HpoProofs.Ic
 import HpoProps.C02
+import HpoProofs.ObsEq
 /-!
 # C03 — information content equals −ln(n/N) for each annotation kind
 
@@ -20,35 +21,8 @@ theorem C03_counts (o o' : Onto) (h : o.calcIc = .ok o') :
     o'.terms = o.terms.map (fun t =>
       ((t.setIc .gene (icPair o.genes.length t.genes.length)).setIc .omim
         (icPair o.omim.length t.omim.length)).setIc .orpha (icPair o.orpha.length t.orpha.length)) ∧
-    o'.genes = o.genes ∧ o'.omim = o.omim ∧ o'.orpha = o.orpha := by
-  unfold Onto.calcIc Onto.calcIcKind at h
-  cases h1 : Onto.icFold .gene (o.recs .gene).length o.terms with
-  | ok t1 =>
-    rw [h1] at h; simp only [Res.bind] at h
-    cases h2 : Onto.icFold .omim (({ o with terms := t1 } : Onto).recs .omim).length t1 with
-    | ok t2 =>
-      rw [h2] at h; simp only [Res.bind] at h
-      cases h3 : Onto.icFold .orpha (({ o with terms := t2 } : Onto).recs .orpha).length t2 with
-      | ok t3 =>
-        rw [h3] at h; simp only [Res.bind, Res.ok.injEq] at h
-        subst h
-        have e1 := icFold_ok _ _ _ _ h1
-        have e2 := icFold_ok _ _ _ _ h2
-        have e3 := icFold_ok _ _ _ _ h3
-        refine ⟨?_, rfl, rfl, rfl⟩
-        simp only [e3, e2, e1, List.map_map]
-        apply List.map_congr_left
-        intro t _
-        simp [Onto.recs, Term.ann, Term.setIc]
-      | err e => rw [h3] at h; cases h
-      | panic => rw [h3] at h; cases h
-      | diverge => rw [h3] at h; cases h
-    | err e => rw [h2] at h; cases h
-    | panic => rw [h2] at h; cases h
-    | diverge => rw [h2] at h; cases h
-  | err e => rw [h1] at h; cases h
-  | panic => rw [h1] at h; cases h
-  | diverge => rw [h1] at h; cases h
+    o'.genes = o.genes ∧ o'.omim = o.omim ∧ o'.orpha = o.orpha :=
+  calcIc_ok o o' h
 
 /-- the only way `calculate_information_content` fails is `TryFromIntError` (a non-zero count
 beyond 65 535); it never panics -/
@@ -116,59 +90,6 @@ theorem C03_monotone_counts (total na nd : Nat) (hd : 0 < nd) (h : nd ≤ na) (h
   linarith
 
 /-! ### counts of builder histories: `n ≤ N`, and `n` grows towards the ancestors -/
-
-/-- record ids of a kind are unique for every call history -/
-theorem recIds_nodup (ops : List AOp) (o : Onto)
-    (h : ∀ k, ((o.recs k).map (·.id)).Nodup)
-    (anc : Nat → List Nat) (ex : Nat → Prop) (rank : Nat → Nat) (hc : AncClosure anc ex rank)
-    (hinv : AnnInv anc ex o) (hf : ∀ j, rank j < o.terms.length + 2) :
-    ∀ k, (((runA ops o).recs k).map (·.id)).Nodup := by
-  induction ops generalizing o with
-  | nil => exact h
-  | cons op ops ih =>
-    simp only [runA, List.foldl_cons]
-    have addR_nodup : ∀ (rs : List Rec) (r : Rec), (rs.map (·.id)).Nodup → ((addR rs r).map (·.id)).Nodup := by
-      intro rs r hn
-      unfold addR
-      cases hg : getR rs r.id with
-      | some _ => exact hn
-      | none =>
-        simp only
-        rw [List.map_append, List.nodup_append]
-        refine ⟨hn, by simp, ?_⟩
-        intro a ha b hb
-        simp at hb; subst hb
-        intro hab; subst hab
-        have := (getR_isSome_iff rs r.id).2 ha
-        simp [hg] at this
-    have modR_ids : ∀ (rs : List Rec) (i : Nat) (f : Rec → Rec), (∀ r, (f r).id = r.id) →
-        (modR rs i f).map (·.id) = rs.map (·.id) := by
-      intro rs i f hf'
-      induction rs with
-      | nil => rfl
-      | cons r rs ih' => simp only [modR, List.map_cons, ih']; split <;> simp [hf']
-    cases op with
-    | addRec k n i =>
-      have ht : (o.addRec k n i).terms = o.terms := by simp [Onto.addRec, terms_setRecs]
-      apply ih (o.addRec k n i) _ (annInv_addRec anc ex o k n i hinv) (by rw [ht]; exact hf)
-      intro k'
-      by_cases hk : k' = k
-      · subst hk; simp only [Onto.addRec, recs_setRecs]; exact addR_nodup _ _ (h k')
-      · simp only [Onto.addRec, recs_setRecs_ne _ _ _ _ hk]; exact h k'
-    | annotate k rid n t =>
-      rcases annInv_annotate anc ex rank hc o k rid n t hinv hf with ⟨he, _⟩ | ⟨_, o', hok, hinv', hlen, hrecs, _⟩
-      · simp only [applyA, he]; exact ih o h hinv hf
-      · simp only [applyA, hok]
-        apply ih o' _ hinv' (by rw [hlen]; exact hf)
-        intro k'
-        rw [hrecs]
-        by_cases hk : k' = k
-        · subst hk
-          simp only [Onto.addTermToRec, recs_setRecs, Onto.addRec]
-          rw [modR_ids (addR (o.recs k') { id := rid, name := n }) rid
-            (fun r => { r with hpos := (Group.insert r.hpos t).1 }) (fun _ => rfl)]
-          exact addR_nodup _ _ (h k')
-        · simp only [Onto.addTermToRec, Onto.addRec, recs_setRecs_ne _ _ _ _ hk]; exact h k'
 
 /-- **n ≤ N and ancestor ⊇ descendant** for every term of every ontology the Builder produces:
 the records linked to a term are distinct records of the ontology, and every record linked to a
